@@ -18,7 +18,8 @@ Inductive case :=
 | CubicCase (mds0 : Z) (reno : bool) (steps : list (op * ob))
 | CubicCaseW (mds0 : Z) (reno : bool) (icw imax : Z) (steps : list (op * ob))
 | PacerCase (steps : list (pop * pob))
-| BwCase (bytes delta ret : Z) (pan : bool).
+| BwCase (bytes delta ret : Z) (pan : bool)
+| SendModeCase (l : list (gate * Z)).
 
 Definition ob_of (s : sender) (ret : Z) (pan : bool) : ob :=
   Ob ret pan (cwnd s) (ssthresh s) (ls s) (la s) (lc s) (exited s) (nacked s) (mds s)
@@ -59,7 +60,8 @@ Fixpoint model_psteps (p : pacer) (ops : list pop) : list pob :=
 Inductive obs :=
 | CubicObs (l : list ob)
 | PacerObs (l : list pob)
-| BwObs (ret : Z) (pan : bool).
+| BwObs (ret : Z) (pan : bool)
+| SendModeObs (l : list Z).
 
 (** the harness builds the stand-alone pacer with bandwidth 0 and sets the bandwidth afterwards *)
 Definition model_obs (c : case) : obs :=
@@ -68,6 +70,7 @@ Definition model_obs (c : case) : obs :=
   | CubicCaseW m r icw imax steps => CubicObs (model_steps (new_sender_w m r icw imax defaultInitialRTTns) (map fst steps))
   | PacerCase steps => PacerObs (model_psteps (new_pacer 0) (map fst steps))
   | BwCase b d _ _ => match bfd b d with Some v => BwObs v false | None => BwObs 0 true end
+  | SendModeCase l => SendModeObs (map (fun x => send_mode (fst x)) l)
   end.
 
 Fixpoint all2 {A} (f : A -> A -> bool) (a b : list A) : bool :=
@@ -83,5 +86,6 @@ Definition check_case (c : case) : bool :=
   | CubicCaseW _ _ _ _ steps, CubicObs l => all2 ob_eqb l (map snd steps)
   | PacerCase steps, PacerObs l => all2 pob_eqb l (map snd steps)
   | BwCase _ _ ret pan, BwObs r p => (r =? ret) && beqb p pan
+  | SendModeCase l, SendModeObs m => all2 Z.eqb m (map snd l)
   | _, _ => false
   end.
